@@ -599,7 +599,7 @@ def run(ctx):
     quick = ctx.tier == "quick"
     import backend_sim as _B, c17_multi as _M
     # bound on event-loop turns per simulated session (sim.VLoop.max_turns): a login session takes < 15k turns (quick tier)
-    _B.MAX_TURNS = _M.MAX_TURNS = 100_000 if quick else 3_000_000
+    _B.MAX_TURNS = _M.MAX_TURNS = 300_000 if quick else 3_000_000
     drv = ctx.driver()
     ctx.rule = ("one case = one end-to-end login in the deterministic simulation (real backend.connect/login, real generated "
                 "Authentication(NX)Server scripted per case, real secure rmc.serve with a key); the 1152-point configuration matrix is exhaustive, "
